@@ -1,7 +1,7 @@
 //! `pvh cmp` — seed-compressed objects versus standard encryption (property C19).
 //!
 //! Request:  `id <layout> be=<backend> n= b= k= kxe= rank= [rank_in=] dnum= dsize= dist= sxs= sxa= sxe= [p=] [pt=<cols>]`
-//!   layouts: glwe | gglwe | ggsw | ksk (switching key) | atk (automorphism key) | tsk (tensor key) | g2g (GGLWE→GGSW key)
+//!   layouts: lwec (LWECompressed built from its wire format, `nl=` LWE dimension, `resb=`/`resk=` receiver radix/precision) | glwe | gglwe | ggsw | ksk (switching key) | atk (automorphism key) | tsk (tensor key) | g2g (GGLWE→GGSW key)
 //! Answer:   `id ok cells=<c> masks=<c ok> dec=<c ok> cellenc=<c ok|-1> ser=<0|1> seedwords=<0|1> …`
 //!   cells     number of ciphertext cells of the decompressed object
 //!   masks     cells whose mask columns equal `vec_znx_fill_uniform` from `Source::new(stored seed)` in column order 1..rank
@@ -11,7 +11,7 @@
 //!   ser       serialise → deserialise → serialise reproduces the bytes and the deserialised object decompresses identically
 //!   seedwords every stored seed is the little-endian image of four consecutive `u64` draws of `Source::new(seed_xa)`
 //!             in the routine's loop order (GLWE: the stored seed is `seed_xa` itself)
-//! For glwe / gglwe / ggsw the line continues with everything the Lean model needs:
+//! For glwe / gglwe / ggsw / ksk / tsk the line continues with everything the Lean model needs:
 //!   `sk=… pt=… top=<u64 words> seeds=<4 words per cell, storage order> child=<words per cell; …> e=<poly per cell in loop order; …> obj=<cells in storage order: cols;…/…>`
 use std::io::{BufRead, Write};
 
@@ -22,14 +22,15 @@ use poulpy_core::{
     EncryptionLayout, GGLWECompressedEncryptSk, GGLWEEncryptSk, GGLWEToGGSWKeyCompressedEncryptSk, GGLWEToGGSWKeyEncryptSk,
     GGSWCompressedEncryptSk, GGSWEncryptSk, GLWEAutomorphismKeyCompressedEncryptSk, GLWEAutomorphismKeyEncryptSk,
     GLWECompressedEncryptSk, GLWEEncryptSk, GLWESwitchingKeyCompressedEncryptSk, GLWESwitchingKeyEncryptSk,
-    GLWETensorKeyCompressedEncryptSk, GLWETensorKeyEncryptSk,
+    GLWETensorKeyCompressedEncryptSk, GLWETensorKeyEncryptSk, LWEEncryptSk,
     layouts::{
         Base2K, Degree, Dnum, Dsize, GGLWE, GGLWECompressed, GGLWECompressedSeed, GGLWECompressedToRef, GGLWEDecompress, GGLWELayout,
         GGLWEToGGSWKey, GGLWEToGGSWKeyCompressed, GGLWEToGGSWKeyDecompress, GGLWEToRef, GGSW, GGSWCompressed, GGSWCompressedSeed,
         GGSWDecompress, GGSWLayout, GLWE, GLWEAutomorphismKey, GLWEAutomorphismKeyCompressed, GLWEAutomorphismKeyDecompress,
         GLWECompressed, GLWECompressedSeed, GLWEDecompress, GLWELayout, GLWEPlaintext, GLWESecret, GLWESecretPreparedFactory,
         GLWESwitchingKey, GLWESwitchingKeyCompressed, GLWESwitchingKeyDecompress, GLWETensorKey, GLWETensorKeyCompressed,
-        GLWETensorKeyDecompress, LWEInfos, Rank, TorusPrecision,
+        GLWETensorKeyDecompress, GLWEToLWEKey, GLWEToLWESwitchingKeyCompressed, GLWEToLWESwitchingKeyDecompress, LWE, LWECompressed, LWESwitchingKey,
+        LWESwitchingKeyCompressed, LWESwitchingKeyDecompress, LWEToGLWEKey, LWEToGLWEKeyCompressed, LWEToGLWEKeyDecompress, LWEDecompress, LWEInfos, LWELayout, LWEPlaintext, LWESecret, Rank, TorusPrecision,
     },
 };
 use poulpy_cpu_avx::{FFT64Avx, NTT120Avx};
@@ -125,7 +126,9 @@ macro_rules! cmp_backend {
             fill_glwe_secret(&mut sk, dist, &mut src_s);
             let mut sk_in = GLWESecret::alloc(deg, Rank(rank_in as u32));
             fill_glwe_secret(&mut sk_in, dist, &mut src_s);
-            let sk_vis = replay_secret(n, rank, dist, &mut Source::new(seed32(sxs)));
+            let mut src_r = Source::new(seed32(sxs));
+            let sk_vis = replay_secret(n, rank, dist, &mut src_r);
+            let sk_in_vis = replay_secret(n, rank_in, dist, &mut src_r);
             let mut skp = module.glwe_secret_prepared_alloc(Rank(rank as u32));
             module.glwe_secret_prepare(&mut skp, &sk);
 
@@ -231,6 +234,7 @@ macro_rules! cmp_backend {
                     let mut xe_c = Source::new(seed32(sxe));
                     let mut xe_s = Source::new(seed32(sxe));
                     let mut xa_s = Source::new(seed32(sxa ^ 0x5555));
+                    let mut wrappers = 0;
                     match op {
                         "gglwe" => {
                             let mut c = GGLWECompressed::alloc_from_infos(&gglwe_layout);
@@ -258,7 +262,38 @@ macro_rules! cmp_backend {
                             c2.read_from(&mut &bytes[..]).unwrap();
                             let mut d2 = GLWESwitchingKey::alloc_from_infos(&gglwe_layout);
                             module.decompress_glwe_switching_key(&mut d2, &c2);
-                            let ok = ser(&c2) == bytes && ser(&d2) == ser(&d);
+                            let mut ok = ser(&c2) == bytes && ser(&d2) == ser(&d);
+                            // the LWE-related wrappers (no producing routine of their own): the same bytes read into the compressed wrapper
+                            // the shape admits must re-serialise identically; the wrapper's decompression trait (whose `other` bound —
+                            // GLWESwitchingKeyDegrees — the compressed wrappers themselves do not implement, so it is fed the
+                            // GLWESwitchingKeyCompressed) must give the same key in the standard wrapper
+                            if dsize == 1 {
+                                let dn = Dnum(dnum as u32);
+                                if rank_in == 1 && rank == 1 {
+                                    let mut w = LWESwitchingKeyCompressed::alloc(deg, bk, tk, dn);
+                                    w.read_from(&mut &bytes[..]).unwrap();
+                                    let mut dw = LWESwitchingKey::alloc(deg, bk, tk, dn);
+                                    module.decompress_lwe_switching_key(&mut dw, &c);
+                                    ok &= ser(&w) == bytes && ser(&dw) == ser(&d);
+                                    wrappers += 1;
+                                }
+                                if rank == 1 {
+                                    let mut w = GLWEToLWESwitchingKeyCompressed::alloc(deg, bk, tk, Rank(rank_in as u32), dn);
+                                    w.read_from(&mut &bytes[..]).unwrap();
+                                    let mut dw = GLWEToLWEKey::alloc(deg, bk, tk, Rank(rank_in as u32), dn);
+                                    module.decompress_glwe_to_lwe_key(&mut dw, &c);
+                                    ok &= ser(&w) == bytes && ser(&dw) == ser(&d);
+                                    wrappers += 1;
+                                }
+                                if rank_in == 1 {
+                                    let mut w = LWEToGLWEKeyCompressed::alloc(deg, bk, tk, Rank(rank as u32), dn);
+                                    w.read_from(&mut &bytes[..]).unwrap();
+                                    let mut dw = LWEToGLWEKey::alloc(deg, bk, tk, Rank(rank as u32), dn);
+                                    module.decompress_lwe_to_glwe_key(&mut dw, &c);
+                                    ok &= ser(&w) == bytes && ser(&dw) == ser(&d);
+                                    wrappers += 1;
+                                }
+                            }
                             subs.push((own_gglwe(&d.to_ref()), own_gglwe(&s.to_ref()), c.to_ref().seed().clone(), ok));
                         }
                         "atk" => {
@@ -330,6 +365,14 @@ macro_rules! cmp_backend {
                     let mut all_child: Vec<String> = Vec::new();
                     let mut all_obj: Vec<String> = Vec::new();
                     let mut outer = Source::new(seed32(sxa));
+                    // layouts whose cells the Lean model recomputes; `cell_pt` = the scalar the routine hands to
+                    // gglwe_compressed_encrypt_sk when the harness knows it (tsk: the model derives it from sk)
+                    let model_op = matches!(op, "gglwe" | "ksk" | "tsk");
+                    let cell_pt: Option<&ScalarZnx<Vec<u8>>> = match op {
+                        "gglwe" => Some(&pt),
+                        "ksk" => Some(&sk_in_vis),
+                        _ => None,
+                    };
                     for (d, s, seeds, ok) in subs.iter() {
                         sok &= *ok;
                         let rin = seeds.len() / dnum.max(1);
@@ -354,7 +397,7 @@ macro_rules! cmp_backend {
                                 dseeds.push(*seed);
                                 nm += mask_ok(&cd, seed) as i32;
                                 nd += (phase_mod(&cd, &sk_cols, b) == phase_mod(&cs, &sk_cols, b)) as i32;
-                                if op == "gglwe" {
+                                if model_op {
                                     all_seeds.push(show_words(
                                         &(0..4).map(|i| u64::from_le_bytes(seed[8 * i..8 * i + 8].try_into().unwrap())).collect::<Vec<_>>(),
                                     ));
@@ -363,29 +406,34 @@ macro_rules! cmp_backend {
                                 }
                             }
                         }
-                        if op == "gglwe" {
+                        if model_op {
                             // per-cell standard encryption with the stored seed and the error source in loop order
                             let mut xe2 = Source::new(seed32(sxe));
                             let mut errs: Vec<String> = Vec::new();
                             let mut xe3 = Source::new(seed32(sxe));
                             for col in 0..rin {
                                 for row in 0..dnum {
-                                    let mut tmp_pt = GLWEPlaintext::alloc(deg, bk, tk);
-                                    module.vec_znx_add_scalar_assign(tmp_pt.data_mut(), 0, (dsize - 1) + row * dsize, &pt, col);
-                                    module.vec_znx_normalize_assign(b, tmp_pt.data_mut(), 0, scratch.borrow());
-                                    let mut st = GLWE::alloc_from_infos(&glwe_layout);
-                                    let mut xa2 = Source::new(seeds[row * rin + col]);
-                                    module.glwe_encrypt_sk(&mut st, &tmp_pt, &skp, &enc, &mut xe2, &mut xa2, scratch.borrow());
-                                    ne += (st.data().raw() == d.at(row, col).data().raw()) as i32;
+                                    if let Some(cpt) = cell_pt {
+                                        let mut tmp_pt = GLWEPlaintext::alloc(deg, bk, tk);
+                                        module.vec_znx_add_scalar_assign(tmp_pt.data_mut(), 0, (dsize - 1) + row * dsize, cpt, col);
+                                        module.vec_znx_normalize_assign(b, tmp_pt.data_mut(), 0, scratch.borrow());
+                                        let mut st = GLWE::alloc_from_infos(&glwe_layout);
+                                        let mut xa2 = Source::new(seeds[row * rin + col]);
+                                        module.glwe_encrypt_sk(&mut st, &tmp_pt, &skp, &enc, &mut xe2, &mut xa2, scratch.borrow());
+                                        ne += (st.data().raw() == d.at(row, col).data().raw()) as i32;
+                                    }
                                     let mut ev = VecZnx::alloc(n, 1, size);
                                     module.vec_znx_add_normal(b, &mut ev, 0, noise, &mut xe3);
                                     errs.push(show_vec(&ev));
                                 }
                             }
+                            if cell_pt.is_none() {
+                                ne = -1;
+                            }
                             tail = format!(
                                 " sk={} pt={} top={} seeds={} child={} e={} obj={}",
                                 show_scalar(&sk_vis),
-                                show_scalar(&pt),
+                                cell_pt.map(show_scalar).unwrap_or("-".to_string()),
                                 show_words(&words(&mut Source::new(seed32(sxa)), 4 * rin * dnum)),
                                 all_seeds.join(";"),
                                 all_child.join(";"),
@@ -396,6 +444,7 @@ macro_rules! cmp_backend {
                             ne = -1;
                         }
                     }
+                    tail += &format!(" wrappers={wrappers}");
                     cells = nc;
                     masks = nm;
                     dec = nd;
@@ -466,6 +515,59 @@ macro_rules! cmp_backend {
                         errs.join(";"),
                         all_obj.join("/")
                     );
+                }
+                "lwec" => {
+                    // LWECompressed has no encryption routine: the object is built from its wire format (k, base2k, seed, body VecZnx)
+                    // out of a standard LWE ciphertext encrypted with source_xa = Source::new(seed); `decompress_lwe` must give that
+                    // ciphertext back.  `nl` = LWE dimension of the receiver.
+                    let nl = kv_us(t, "nl").max(1);
+                    let layout = LWELayout { n: Degree(nl as u32), k: tk, base2k: bk };
+                    let enc = EncryptionLayout::new(layout, noise).unwrap();
+                    let mut skl = LWESecret::alloc(Degree(nl as u32));
+                    fill_lwe_secret(&mut skl, dist, &mut Source::new(seed32(sxs)));
+                    let mut ptl = LWEPlaintext::alloc(bk, tk);
+                    load_col(ptl.data_mut(), 0, kv(t, "ptv").unwrap_or("-"));
+                    let mut ct = LWE::alloc_from_infos(&layout);
+                    module.lwe_encrypt_sk(&mut ct, &ptl, &skl, &enc, &mut Source::new(seed32(sxe)), &mut Source::new(seed32(sxa)), scratch.borrow());
+                    let mut bytes: Vec<u8> = Vec::new();
+                    bytes.extend_from_slice(&(k as u32).to_le_bytes());
+                    bytes.extend_from_slice(&(b as u32).to_le_bytes());
+                    bytes.extend_from_slice(&seed32(sxa));
+                    for v in [1u64, 1, size as u64, size as u64, (size * 8) as u64] {
+                        bytes.extend_from_slice(&v.to_le_bytes());
+                    }
+                    for j in 0..size {
+                        bytes.extend_from_slice(&ct.data().at(0, j)[0].to_le_bytes());
+                    }
+                    let mut lc = LWECompressed::alloc(bk, tk);
+                    lc.read_from(&mut &bytes[..]).unwrap();
+                    ser_ok = (ser(&lc) == bytes) as i32;
+                    // receiver: same LWE dimension; radix / precision may be made to differ (`resb=`, `resk=`) — must be refused
+                    let resb = if kv(t, "resb").is_some() { kv_us(t, "resb") } else { b };
+                    let resk = if kv(t, "resk").is_some() { kv_us(t, "resk") } else { k };
+                    let rlayout = LWELayout { n: Degree(nl as u32), k: TorusPrecision(resk as u32), base2k: Base2K(resb as u32) };
+                    let mut d = LWE::alloc_from_infos(&rlayout);
+                    let r = std::panic::catch_unwind(std::panic::AssertUnwindSafe(|| {
+                        module.decompress_lwe(&mut d, &lc);
+                    }));
+                    cells = 1;
+                    seedwords = 1;
+                    cellenc = -1;
+                    let body: Vec<String> = (0..size).map(|j| ct.data().at(0, j)[0].to_string()).collect();
+                    let child = words(&mut Source::new(seed32(sxa)), (nl + 1) * size);
+                    tail = format!(" ressize={} body={} child={} obj={}", resk.div_ceil(resb), body.join(","), show_words(&child), show_col(ct.data(), 0));
+                    match r {
+                        Ok(()) => {
+                            dec = (d.data().raw() == ct.data().raw()) as i32;
+                            masks = dec;
+                        }
+                        Err(e) => {
+                            dec = -2;
+                            masks = -2;
+                            let msg: String = panic_msg(&e).chars().map(|c| if c.is_whitespace() { '_' } else { c }).take(100).collect();
+                            tail += &format!(" panic={}:{msg}", panic_class(&panic_msg(&e)));
+                        }
+                    }
                 }
                 _ => return "bad-op".to_string(),
             }
